@@ -345,7 +345,7 @@ V(id='c10-benign-extra-rounding', prop='C10', file='mpmath/libmp/libmpc.py',
   new="def mpc_pos(z, prec, rnd=round_fast):\n    re, im = z\n    x = mpf_pos(re, prec, rnd)\n    y = mpf_pos(im, prec, rnd)\n    return x, y",
   expect='silent')
 V(id='c10-benign-lower-intermediate', prop='C10', file='mpmath/libmp/libmpc.py',
-  old="    wp = prec + 15\n    a = mpc_add(z, mpc_one, wp)", new="    wp = prec + 17\n    a = mpc_add(z, mpc_one, wp)",
+  old="    # atanh(z) = (log(1+z)-log(1-z))/2\n    wp = prec + 15\n", new="    # atanh(z) = (log(1+z)-log(1-z))/2\n    wp = prec + 17\n",
   expect='silent')
 
 # ---------------------------------------------------------------- C06 -------
@@ -2308,3 +2308,38 @@ V(id='c24-agm-principal-root-only', prop='C24', file='mpmath/libmp/libhyper.py',
 V(id='c24-benign-agm-zero-test-only', prop='C24', file='mpmath/libmp/libhyper.py',
   old="        if mpf_gt(mpc_abs(mpc_sub(a1, b1, 10), 10), mpc_abs(mpc_add(a1, b1, 10), 10)):\n            b1 = mpc_neg(b1)\n        a, b = a1, b1\n",
   new="        a, b = a1, b1\n", expect='silent')
+
+# ---- C08 W-R5 exact exit of the enclosure loop (fix a3334c3), W-R6 numeral size hint (fix ceccd07) ----
+V(id='c08-enclosure-loop-without-exact-exit', prop='C08', file='mpmath/libmp/libmpf.py',
+  old="""            if wp > 4*(bc + 4*abs(b) + bitprec):
+                # The two ends keep straddling a dps-digit decimal D: s is
+                # D itself or extremely close to it. Compare exactly.
+                # D = N * 10^e10 is the decimal that the upper end reached
+                N = int(digits2[:dps].ljust(dps, '0'))
+                e10 = exponent2 - (dps-1) + b
+                lhs = man << max(exp, 0)
+                rhs = N << max(-exp, 0)
+                if e10 >= 0:
+                    rhs *= 10**e10
+                else:
+                    lhs *= 10**(-e10)
+                if lhs >= rhs:
+                    digits, exponent = digits2, exponent2
+                break
+            wp *= 2""",
+  new="            wp *= 2", expect='fire:W-R5:to_digits_exp')
+V(id='c08-exact-exit-comparison-reversed', prop='C08', file='mpmath/libmp/libmpf.py',
+  old="                if lhs >= rhs:\n                    digits, exponent = digits2, exponent2", new="                if lhs <= rhs:\n                    digits, exponent = digits2, exponent2",
+  expect='fire:W-R5:to_digits_exp')
+V(id='c08-exact-exit-through-floats', prop='C08', file='mpmath/libmp/libmpf.py',
+  old="                if lhs >= rhs:\n                    digits, exponent = digits2, exponent2", new="                if float(lhs) >= float(rhs):\n                    digits, exponent = digits2, exponent2",
+  expect='fire:W-R5:to_digits_exp')
+V(id='c08-benign-exact-exit-earlier', prop='C08', file='mpmath/libmp/libmpf.py',
+  old="            if wp > 4*(bc + 4*abs(b) + bitprec):", new="            if wp > 8*(bc + 4*abs(b) + bitprec):", expect='silent')
+
+V(id='c08-numeral-trusts-size-hint', prop='C08', file='mpmath/libmp/libintmath.py',
+  old="    bc = bitcount(n)\n    if bc > 3000:\n        size = max(size, int(bc / math.log(base, 2)) + 1)\n", new="",
+  expect='fire:W-R6:numeral_python')
+V(id='c08-numeral-size-correction-too-late', prop='C08', file='mpmath/libmp/libintmath.py',
+  old="    if bc > 3000:\n        size = max(size, int(bc / math.log(base, 2)) + 1)\n", new="    if bc > 30000:\n        size = max(size, int(bc / math.log(base, 2)) + 1)\n",
+  expect='fire:W-R6:numeral_python')
